@@ -60,7 +60,7 @@ CHECKS = {
     "C14": ("model_checking",
             "TLA+ RFC 6455 receiver state machine WsReader.tla; TLC invariants + 3 named deviations; bounded-exhaustive and simulated behaviour replay (model -> code) into a real websocket.Conn with every-frame stream cuts",
             "for every sequence of frames an arbitrary peer can send within the listed alphabets and depths (all section-5 rules one factor at a time to depth 3-4, opcode x FIN to depth 4-5, the full header product as first frame, message sizes around limits 1/125/126/1000/65535 incl. 2^63-1 / 2^63 / 2^64-1 lengths, both roles) and for random 30-frame behaviours, a real Conn delivers exactly the messages the specification's receiver delivers, fails permanently at the first rule violation and writes Close 1002, returns ErrReadLimit for any framing of an over-limit message, answers pings with identical pong payloads, and never delivers anything when the stream is cut inside a frame or an open message",
-            "trusts TLC, the LD expander, the in-memory transport and the VerifNewConn hook; compression off; minimal length forms only; payload patterns; top-bit lengths only required to fail; close code with the limit error and reason texts are free", "5/C14"),
+            "trusts TLC, the LD expander, the in-memory transport and the VerifNewConn hook; minimal length forms only; payload patterns; top-bit lengths only required to fail; close code with the limit error and reason texts are free", "5/C14"),
     "C15": ("model_checking",
             "TLA+ spec WsConc.tla (write lock, close-sent latch, per-frame transport writes; TLC over all interleavings, four named deviations) + TLC-generated schedules forced on a gated transport under -race + TLC trace validation of the recorded executions",
             "in the model every interleaving of one data writer (multi-frame messages, frames of one or two transport writes), k control senders and a closer keeps the writes of a frame adjacent, puts nothing on the wire after a Close frame, makes later calls fail with close-sent and keeps data frames in order; each schedule the model allows, plus schedules that attempt the forbidden steps, is forced on the real Conn; every recorded execution (transport write order, call results, tokenised wire, messages delivered to a real peer) must be accepted by the specification and the race detector must stay silent; corrupted traces are shown to be rejected",
@@ -138,6 +138,42 @@ ADDENDA = {
             "; reads after Start-then-Close or Close-then-Start are specified as the library does them and judged only for finite non-negative values; what Close() returns is not judged"),
 }
 
+# round 4 (combinations, rarely used entry points, partial failures): appended after ADDENDA
+ADDENDA4 = {
+    "C01": ("; Set Chunk Size on every message-stream-id class, all RTMP 1.0 message types incl. Abort / Acknowledgement as first / middle / last message of a direction; writer-buffer state `held` with invariant Flushed; deviations reader-ignores-scs-on-stream, lazy-flush",
+            "; the peer reads exactly the written sequence including the last message of a direction with nothing written behind it, and a further read finds no message", ""),
+    "C03": ("; typed waits for every control packet type while responses arrive (counters seen / refused, invariant EveryResponseJudged, deviation wait-skips-undecoded)",
+            "; every response a typed wait passes over - also a wait for Set Chunk Size, User Control, Window Ack Size, Set Peer Bandwidth - is matched exactly once or fails the wait", ""),
+    "C04": ("; transaction table keyed by KeyOf with typed slots (invariant RightType, deviation lossy-key), transaction-id value classes",
+            "; every schedule of 2-3 simultaneously outstanding requests is also replayed over 8 classes of ids that are distinct AMF0 numbers but collide under integer truncation, 32-bit wrap, float32, int64 overflow or short formatting: each response is matched once and decoded as its own request's response type",
+            "; id classes are positive finite doubles"),
+    "C05": ("; origin of objects (constructor / Go zero value / composite literal / new(T) / decoded into a zero value) as a dimension of Amf0Live (deviation marker-by-constructor)",
+            "; the encoding holds whichever legal way the objects of a value came to be", ""),
+    "C06": ("; origin of objects as in C05", "; the specification's encoding holds whichever legal way the objects of a value came to be", ""),
+    "C08": ("; one-shot transport faults (call k fails, later calls work; invariant ErrorSurfaces, deviation fault-swallowed-at-boundary) and constructor chains of depth 33 to 1000",
+            "; a transport failure at any single read or write call surfaces in the call during which it happened also when the transport works again afterwards; Cause reaches the root through chains of a thousand layers", ""),
+    "C09": ("; the caller's memory holding all bodies adjacently (arena, invariant InputsUntouched, deviation mux-append-in-place) and end of stream delivered with the last bytes (DeliverFinal, invariant NoLoss, deviation demux-err-before-n)",
+            "; the muxer only reads its inputs (bodies are adjacent windows of one buffer, compared with their snapshot after every WriteTag); every demux replay also with io.EOF delivered together with the last bytes", ""),
+    "C11": ("; payload value classes (the raw block is itself a complete ADTS frame, wrapped up to three times, sync-word prefixes, header-only) and TLC-generated long-stream shapes up to 1 MiB; deviations PassThrough, LenMod (model-checked at real scale with a 73,719-byte stream)",
+            "; raw blocks are content: Encode / Decode round-trip when the block looks like a frame; streams ending just below / above 2^15..2^20 decode frame by frame through one buffer with exact remainders", ""),
+    "C12": ("; per-position NAL size classes for every length size, Annex-B start-code look-alikes in payloads, header matrix (all 256 values of profile / compatibility / level against classes of the other two); deviations annexb, refine",
+            "; every exported field is compared after unmarshalling spec-written bytes, the library's own bytes and API-built records, so value-only asymmetries that leave bytes unchanged are visible", ""),
+    "C13": ("; read-buffer dimension in the receiver model (BufCap, deviation read-buffer-unclamped); PreparedCache.tla: lookup / run-once build / publish / take per key, TLC over every schedule of 3 writers (invariant HandedBuilt, deviation published-before-built) + concurrent broadcast replay",
+            "; the receiving Conn's ReadBufferSize {default, 1, 16, 64, 100, 124, 125, 126, 4096} crossed with pings of 0..125 octets around and inside messages, reached through the foreign sender, the library sender and Dialer/Upgrader sessions; one PreparedMessage written to 3 connections at once (every multiset of options, used before or not, 1000 B or 500 kB): every peer reads the broadcast and the message behind it",
+            "; which schedule a broadcast realises is the Go scheduler's choice: a schedule-dependent defect is found with high probability, not certainty, and confirmed by re-running the failing cases"),
+    "C14": ("; configuration dimension permessage-deflate negotiated (RSV rule of RFC 6455 5.2 with RFC 7692 6: invariant ReservedBitsOk over the frames taken in; deviations rsv1-shadows-reserved-bits, rsv1-on-non-first-frame-accepted)",
+            "; with and without permessage-deflate: RSV1 accepted exactly on the first frame of a data message (the message is then inflated and delivered), every other use of RSV1/RSV2/RSV3 fails with Close 1002 - full RSV product x opcode x FIN x mask as single frames, sequences to depth 2-3 with compressed or fragmented messages and control frames",
+            "; compression is a dimension of the header, pmd and sim families; compressed payloads are stored-block DEFLATE streams made by the replayer; invalid DEFLATE data, context takeover and window parameters are not judged"),
+    "C16": ("; value classes in Jose.tla: payload tails that look like the PKCS#7 padding for every length mod 16, wrong keys related to the right symmetric key (prefix-extended, zero-extended, truncated, zero-stripped); deviations unpad-greedy, key-resized",
+            "; every object with a raw symmetric key is also opened with K+1 octet, K doubled, K+zeros, K minus one octet and half of K and must fail; payloads whose last octet, trailing run or every octet equals the pad value of their length come back whole under all 6 content encryptions",
+            "; no claim for HS* about K versus K followed by or stripped of zeros (RFC 2104: one key)"),
+    "C18": ("; message-shape and Cid() value classes (empty / interior and trailing newlines / CR / > 64 KiB; 0, negative, 32/64-bit ids), the Write call as the unit; invariant Adjacent; deviations split-at-newline, obj-cid-unsigned",
+            "; one logging call is exactly one Write of label, time, prefix and the whole rendered message for every shape in println and printf form; the Cid() of an application object is printed as the integer it is through both forms", ""),
+    "C19": ("; error kinds as facets of the value handed over (concrete type / Code() / Status()) crossed with how it reaches Error (direct, pointer, embedding, Wrap / WithMessage / WithStack); deviations status-shadows-code, cause-dispatched",
+            "; an error that has its own code is answered with that code also when it has Status() too; values that are neither the library's error types nor carry Code()/Status() themselves are answered as plain errors with 500",
+            "; precedence SystemComplexError > SystemError > Code() > Status() as in Error(); Cause() is not consulted"),
+}
+
 NOT_YET = "check not built yet in this revision of /verif (work in progress; see DESIGN.md section 5)"
 
 
@@ -157,6 +193,8 @@ def main():
         level, tech, text, note, ref = CHECKS[pid]
         if pid in ADDENDA:
             tech, text, note = tech + ADDENDA[pid][0], text + ADDENDA[pid][1], note + ADDENDA[pid][2]
+        if pid in ADDENDA4:
+            tech, text, note = tech + ADDENDA4[pid][0], text + ADDENDA4[pid][1], note + ADDENDA4[pid][2]
         checks.append({
             "property_id": pid,
             "quick_cmd": "./vcheck %s --tier quick" % pid,
